@@ -465,6 +465,7 @@ def run(F, R, tier):
 
     R.guard(_series_branches, F, R)
     R.guard(_limit_values, F, R)
+    R.guard(_shift_consistency, F, R)
 
     lo, hi = GUARD_BAND
     R.rule("R3", "tolerance of every pole guard >= %.0e (below that the rounding error of the cancelling numerator, amplified "
@@ -997,3 +998,121 @@ def _limit_values(F, R):
     except UnitFail as ex:
         R.fail("R6", "Phi_over_lambda_2: branches dimensionally consistent", F.loc(f), "%s: %s" % (ex, show(ex.term)[:120]),
                key="R6|Phi_over_lambda_2")
+
+
+def _shift_consistency(F, R):
+    """A pole-avoiding shift moves ONE variable; the numerator cancels the pole only if every quantity that depends on the
+    same input is computed from the moved value.  After the shift the pre-shift value (and the locals / model fields it was
+    computed from, unless the limit itself also depends on them) must be dead."""
+    from .render import Renderer
+    R.rule("R9", "after a pole-avoiding shift of a variable, nothing is computed from its pre-shift value any more (temporary "
+                 "copies and the inputs it was derived from are not read again): numerator and denominator see the same point", 8)
+    for k, f in sorted(F.functions.items(), key=lambda x: (x[1]["file"], x[1]["line"])):
+        if f["file"] not in SCOPE or f["name"].split("::")[-1] == "shift":
+            continue
+        body = f["body"].get("c", [])
+        Rr = Renderer(f, resolve_locals=False)
+        inits = {}
+        for st in body:
+            if st.get("k") == "DeclStmt":
+                for d in st.get("decls", ()):
+                    if "id" in d and d.get("init") is not None:
+                        inits[d["id"]] = d["init"]
+
+        def refs(node):
+            ids, flds = set(), set()
+            for n in walk(node):
+                if n.get("k") == "DeclRefExpr" and n.get("rk") in ("Var", "Param") and n.get("id") is not None:
+                    ids.add(n["id"])
+                if n.get("k") == "MemberExpr" and n.get("mk") == "Field":
+                    flds.add(n.get("sn") or n.get("n"))
+            return ids, flds
+
+        def slice_of(node):
+            ids, flds = refs(node)
+            todo = list(ids)
+            while todo:
+                i = todo.pop()
+                if i in inits:
+                    a, b = refs(inits[i])
+                    flds |= b
+                    for j in a - ids:
+                        ids.add(j)
+                        todo.append(j)
+            return ids, flds
+
+        short = f["name"].split("::")[-1]
+
+        def shift_at(st):
+            shifted, pre_nodes, limit_nodes = [], [], []
+            s0 = strip_all(st)
+            if s0 is not None and is_call(s0) and str(s0.get("fn") or "").split("::")[-1] == "shift":
+                args = call_args(s0)
+                tgt = F.functions.get(s0.get("mg"))
+                nref = len([p for p in (tgt["params"] if tgt else []) if p.get("ref") and not p.get("cref")])
+                for a in args[:max(nref, 1)]:
+                    a0 = strip_all(a)
+                    if a0 is not None and a0.get("k") == "DeclRefExpr":
+                        shifted.append(a0["id"])
+                        if a0["id"] in inits:
+                            pre_nodes.append(inits[a0["id"]])
+                limit_nodes = args[max(nref, 1):]
+            elif st.get("k") == "DeclStmt":
+                for d in st.get("decls", ()):
+                    ini = strip_all(d.get("init")) if d.get("init") is not None else None
+                    if ini is not None and ini.get("k") == "ConditionalOperator":
+                        cnd = ini.get("cond")
+                        if any(is_call(x) and re.search(r"is_equal(_rel)?$|is_zero$", str(x.get("fn") or "").split("<")[0]) for x in walk(cnd)):
+                            els = strip_all(ini.get("else"))
+                            if els is not None and els.get("k") == "DeclRefExpr":
+                                shifted.append(d["id"])
+                                pre_nodes.append(els)
+                                limit_nodes = [ini.get("then")]
+            return s0, shifted, pre_nodes, limit_nodes
+
+        # pole positions of one variable share inputs with it (xh = mh^2/mz^2 against 4 mw^2/mz^2): pool the limits of all
+        # shifts of the same variable before deciding which inputs belong to the moving quantity alone
+        pooled = {}
+        for st in body:
+            s0_, sh_, pre_, lim_ = shift_at(st)
+            for v in sh_:
+                pooled.setdefault(v, []).extend(lim_)
+        for idx, st in enumerate(body):
+            s0, shifted, pre_nodes, limit_nodes = shift_at(st)
+            limit_nodes = list(limit_nodes)
+            for v in shifted:
+                limit_nodes += pooled.get(v, [])
+            if not shifted:
+                continue
+            pre_ids, pre_flds = set(), set()
+            for pn in pre_nodes:
+                a, b = slice_of(pn)
+                pre_ids |= a
+                pre_flds |= b
+            lim_ids, lim_flds = set(), set()
+            for ln in limit_nodes:
+                a, b = slice_of(ln)
+                lim_ids |= a
+                lim_flds |= b
+            dead_ids = {i for i in pre_ids - lim_ids - set(shifted) if i in inits}     # local temporaries only
+            dead_flds = pre_flds - lim_flds
+            bad = None
+            for later in body[idx + 1:]:
+                l0 = strip_all(later)
+                # a second shift of the same variable reads it legitimately
+                for n in walk(later):
+                    if n.get("k") == "DeclRefExpr" and n.get("id") in dead_ids:
+                        bad = (n, "the pre-shift value `%s`" % n.get("n"))
+                        break
+                    if n.get("k") == "MemberExpr" and n.get("mk") == "Field" and (n.get("sn") or n.get("n")) in dead_flds:
+                        bad = (n, "the input `%s` from which the shifted variable was computed" % Rr.r(n))
+                        break
+                if bad:
+                    break
+            names = ", ".join(sorted(Rr.r(strip_all(a)) for a in (call_args(s0)[:1] if is_call(s0) else [])) or
+                              [d.get("name") for d in st.get("decls", ()) if d.get("id") in shifted])
+            R.check("R9", bad is None, "%s: shift of %s at line %s" % (short, names, st.get("l") or (s0 or {}).get("l")), F.loc(f, st),
+                    "%s is read again at line %s after the shift: a quantity computed from it is evaluated at the unshifted point "
+                    "while the pole factor is evaluated at the shifted one, so the cancellation that removes the singularity is lost"
+                    % (bad[1] if bad else "", bad[0].get("l") if bad else ""),
+                    key="R9|%s|%s" % (short, names))
